@@ -4,6 +4,8 @@ CONSTANTS
   Cfgs = {"c1", "c2", "c3", "c4", "c5", "c6", "c7", "c8", "c9", "c10", "c11", "r1", "r2", "r3", "r4", "r5", "r6", "r7", "r8"}
   OwnScaleCfgs = {"c3"}
   NiceSensitive = {"c7", "c8", "c9"}
+  NoOptCfgs = {"c7", "c9", "c10", "c11"}
+  ShareWhenOmitted = FALSE
   FitAxisAtExport = FALSE
   ReadsSharedDirection = FALSE
   ShareDefaultScale = FALSE
